@@ -32,7 +32,7 @@ SPEC = {
     ],
     "jobs": [
         {"name": "asan", "harness": "c08_cc608", "srcs": ["harness/c08_cc608.c"], "flavour": "asan",
-         "cases": {"quick": 24000, "thorough": 3000000}, "budget": 20},
+         "cases": {"quick": 48000, "thorough": 3000000}, "budget": 20},
         {"name": "witness", "harness": "c08_cc608", "srcs": ["harness/c08_cc608.c"], "flavour": "asan",
          "cases": {"quick": 46, "thorough": 46}, "mode": "witness", "budget": 20},
     ],
